@@ -115,6 +115,10 @@ def _sock_script(draw, gen: int):
                     ops.append(["send", "T", draw(st.integers(0, 3)), 4.0])
                 ops.append(["send", "F", draw(st.integers(0, 2)), 30.0])
                 ops.append(["advance", 2.0])                          # the retry connects; the flush starts and stalls
+                # ... and while it is suspended other tasks submit further messages (each runs its own flush of the
+                # queue next to the suspended one): nothing already handed to the connection may be written again
+                for _ in range(draw(st.integers(0, 2))):
+                    ops.append(["send", "F", draw(st.integers(0, 2)), 30.0])
                 ops.append(["advance", draw(st.sampled_from([0.5, 1.0, 2.0, 3.0]))])
                 ops.append(["resume"])
                 ops.append(["advance", 1.0])
@@ -367,6 +371,8 @@ def _faults_hitting(net, m, msgs, complete_at, gen=None):
             if x is not None:
                 done.add(x["pid"])
             i = end
+        rest[cid] = data[i:]
+    rest: dict = {}
     for pos, e in enumerate(net.log):
         if e[1] == "tx":
             bufs.setdefault(e[2], bytearray()).extend(e[3])
@@ -375,6 +381,14 @@ def _faults_hitting(net, m, msgs, complete_at, gen=None):
             t_f, cid = e[0], e[2]
             if m["logpos"] > pos or t_f >= m["a"] + m["L"] or m["pid"] in done:
                 continue
+            part = rest.get(cid, b"")
+            if len(part) >= len(m["hb"]):
+                # the unfinished frame on that connection names its message: the fault hit exactly that one
+                if part[:len(m["hb"])] == m["hb"]:
+                    out.append((t_f, cid))
+                    continue
+                if part[:len(m["hb"])] in hdr_of:
+                    continue
             if all(x["pid"] in done or t_f >= x["a"] + x["L"] for x in msgs if x["logpos"] <= pos and x["pid"] < m["pid"]):
                 out.append((t_f, cid))
     return out
